@@ -145,7 +145,7 @@ def run_server(case):
             sock = c09.FakeSock(False, ca_of(i), c09.HA)
             sock.ident = i
             sock.on_close = lambda s: closed.append(s.ident)
-            sock.dead = bool(dead)                    # reset by the peer before it is accepted: getpeername() raises ENOTCONN
+            sock.dead = dead if dead else False       # gone before it is accepted: getpeername() raises ENOTCONN (True) or the given errno
             old = [o for o in every.get(i, []) if not o.closed]
             every.setdefault(i, []).append(sock)
             socks[i] = sock
@@ -542,7 +542,7 @@ def _script(sc):
 def _pass(p):
     return "{| TcpFault.p_tx := %s; TcpFault.p_acc := %s; TcpFault.p_hs := %s; TcpFault.p_io := %s |}" % (
         coq_list([f"({coq_N(i)}, {coq_bytes(bytes.fromhex(hx))})" for i, hx in p.get("tx", [])], "N * bytes"),
-        coq_list([f"({coq_N(i)}, {coq_bool(d)})" for i, d in p.get("acc", [])], "N * bool"),
+        coq_list([f"({coq_N(i)}, {coq_bool(bool(d))})" for i, d in p.get("acc", [])], "N * bool"),
         coq_list([f"({coq_N(i)}, {_h(h)})" for i, h in p.get("hs", [])], "N * TcpFault.hres"),
         coq_list([f"({coq_N(i)}, {_script(sc)})" for i, sc in p.get("io", [])], "N * TcpFault.script"))
 
@@ -668,6 +668,19 @@ def directed():
                                            {"io": [[1, good], [2, good]]},
                                            {"wind": [how, "b"], "tx": [[2, "ee"]], "io": [[1, good], [2, good]]},
                                            {"io": [[1, good], [2, good]]}]})
+        for e in (errno.ENOTCONN, errno.EINVAL, errno.EBADF, errno.ECONNRESET, errno.ECONNABORTED, errno.EPIPE):
+            out.append({"scene": "server", "tls": tls, "ix0": [1], "cx0": [],
+                        "passes": [{"tx": [[1, P1]], "acc": [[2, e], [3, False]], "hs": [[3, ["done"]]], "io": [[1, good], [3, good]]},
+                                   {"acc": [[4, e]], "hs": [[3, ["done"]]], "io": [[1, good], [3, good]]}]})
+        # a connection whose peer reset with data still readable is later closed by the server (handler, closeIx,
+        # replacement): shutdown() of such a socket raises ENOTCONN, which must stay inside Remoter.shutdown
+        for tail in (["data", ""], ["err", "os", errno.ECONNRESET]):
+            bad = {"recvs": [["data", "aa"], ["data", "bbcc", "dead"], tail], "send": ["acc", 2]}
+            out.append({"scene": "server", "tls": tls, "accept": True, "ix0": [] if tls else [1, 2], "cx0": [1, 2] if tls else [],
+                        "passes": [{"hs": [[1, ["done"]], [2, ["done"]]], "io": [[1, good], [2, good]]},
+                                   {"tx": [[1, P1]], "io": [[1, good], [2, bad]]},
+                                   {"acc": [[2, False]], "hs": [[2, ["done"]]], "io": [[1, good], [2, good]]},
+                                   {"hs": [[2, ["done"]]], "io": [[1, good], [2, good]]}]})
         for wlflag in (True, False):
             ids = [1, 2, 3]
             out.append({"scene": "server", "tls": tls, "wl": wlflag, "accept": True,
@@ -776,7 +789,8 @@ def gen_server(rng):
                 if tls and i not in cx0:
                     cx0_dyn.add(i)
                 if i not in [a[0] for a in acc]:
-                    acc.append([i, rng.random() < 0.2])
+                    acc.append([i, rng.choice([True, errno.ENOTCONN, errno.EINVAL, errno.EBADF, errno.ECONNRESET, errno.ECONNABORTED])
+                                if rng.random() < 0.25 else False])
             pas["acc"] = acc
         passes.append(pas)
     case = {"scene": "server", "tls": tls, "ix0": ix0, "cx0": cx0, "passes": passes}
@@ -1159,7 +1173,8 @@ def gen_post_fault(rng):
     stops = [["data", ""], ["err", "os", errno.ECONNRESET], ["err", "os", errno.ETIMEDOUT]] + ([["err", "ssl", 8]] if tls else [])
     p0 = {"hs": [[i, ["done"]] for i in ids], "io": [[i, good] for i in ids]}
     p1 = {"tx": [[i, P1] for i in ids],
-          "io": [[i, {"recvs": [["data", "aa"], rng.choice(stops)], "send": ["acc", 2]} if i in victims else good] for i in ids]}
+          "io": [[i, {"recvs": [["data", "aa"]] + ([["data", "bb", "dead"]] if rng.random() < 0.5 else []) + [rng.choice(stops)],
+                      "send": ["acc", 2]} if i in victims else good] for i in ids]}
     later = lambda: {"tx": [[i, c09.hx(rng, 3)] for i in ids if rng.random() < 0.7],
                      "io": [[i, {"recvs": [["data", "bb"]], "send": rng.choice([["acc", 2], ["err", "os", errno.EPIPE]])}
                              if i in victims else good] for i in ids]}
